@@ -95,10 +95,12 @@ TEXT.update({
  },
  "C25": {
   "engine": "K+M",
-  "technique": "bounded model checking (Kani/CBMC) of write_pdu -> read_pdu on small PDUs with symbolic fields, of strict prefixes and of strict-mode length checking on an arbitrary header",
+  "technique": "bounded model checking (Kani/CBMC) of write_pdu -> read_pdu on small PDUs with symbolic fields and of strict prefixes; symbolic execution of the rustc MIR of write_pdu / write_chunk_* with z3 for association PDUs",
   "level": "Round trip, exact framing (length field == bytes that follow, all bytes consumed) and prefix => incomplete for release, unknown-type and one-PDV P-DATA PDUs with all field values symbolic; "
-           "item length fields decided on the MIR of write_chunk_u16/u32: Ok is returned only when the written length field equals the content length (all lengths up to 2^20 / 2^33).",
-  "note": "A-ASSOCIATE-RQ/AC round trip, A-ABORT/RJ (bytes::Bytes pointer tagging vs CBMC) and strict mode are not covered; tracing stubbed; content builder of a chunk is a contract producing L bytes",
+           "item length fields decided on the MIR of write_chunk_u16/u32: Ok is returned only when the written length field equals the content length (all lengths up to 2^20 / 2^33); "
+           "A-ASSOCIATE-RQ and -AC: the MIR of write_pdu with all its closures is executed on PDUs of concrete shape (every user sub-item kind incl. role selection, extended negotiation, user identity, unknown; "
+           "UID lengths per instance) with symbolic characters and field values, and an independent PS3.8/PS3.7 item walker shows every item length and nested length field tiles its content.",
+  "note": "A-ASSOCIATE-RQ/AC read side, A-ABORT/RJ (bytes::Bytes pointer tagging vs CBMC) and strict mode are not covered; tracing stubbed; text codec contract: default repertoire is its own encoding",
  },
  "C26": {
   "engine": "K",
